@@ -310,6 +310,9 @@ impl Prop for C18 {
     fn id(&self) -> &'static str {
         "C18"
     }
+    fn isolate(&self) -> bool {
+        true
+    }
     fn level(&self) -> &'static str {
         "fault_enumeration"
     }
